@@ -1,6 +1,7 @@
+use crate::internal::sync::RwLock;
 use crate::internal::{consts, MiniAllocator, ObjType, SectorInit};
 use std::io::{self, BufRead, Read, Seek, SeekFrom, Write};
-use std::sync::{Arc, RwLock, Weak};
+use std::sync::{Arc, Weak};
 
 //===========================================================================//
 
